@@ -208,6 +208,11 @@ def str_encode(E, st, args, kw):
         return [Res(st, VBytes(_utf8(s.e))), E.raise_(s2, "builtins.UnicodeEncodeError")]
     if codec != "ascii":
         return [Res(st, VBytes(fresh("encoded", BytesS)))]
+    if len(args) > 2 or "errors" in kw:
+        # an error handler (backslashreplace / replace / ignore ...) is given: never raises, the result is some ASCII byte string
+        b = fresh("ascii_escaped", BytesS)
+        st.assume(is_ascii_b(b), *ascii_dec_facts(b))
+        return [Res(st, VBytes(b))]
     out = []
     for s2, ok in E.branch(st, is_ascii_s(s.e)):
         if ok:
